@@ -257,7 +257,10 @@ class G:
             op = self.pick('*/')
             g1 = self._op_gap(out, op)
             g2 = [self.ws()] if self.p(0.75) else []
-            out = [*out, *g1, ['MUL_OP', op], *g2, *self.atom(depth - 1)]
+            right = self.atom(depth - 1)
+            if op == '/' and len(right) == 1 and right[0][0] == 'NUMBER' and not right[0][1].strip('0.,'):
+                right = [['NUMBER', '1' + right[0][1]]]   # no literal division by zero
+            out = [*out, *g1, ['MUL_OP', op], *g2, *right]
         return out
 
     def add_expr(self, depth: int) -> list[Piece]:
